@@ -191,7 +191,8 @@ def edits(spec, seed=0):
     for h in (None, "1.1", "1.2"):
         if spec["header"] != h:
             out.append(["hdr", h])
-    for lab, fin in ((None, False), (None, True), ("Beta-1.2", False), ("RC-3.0", True)):
+    for lab, fin in ((None, False), (None, True), ("Beta-1.2", False), ("RC-3.0", True), ("Beta-1.2", True), ("RC-3.0", False),
+                     ("Alpha-1.0", True), ("Update-2.1", True), ("EA-1.1", True)):
         if (spec["compose"]["label"], spec["compose"]["final"]) != (lab, fin):
             out.append(["label", lab, fin])
     for t, d, r in (("production", "20160102", 0), ("test", "99999999", 12), ("development", "00000000", 10 ** 7)):
